@@ -12,21 +12,21 @@ import (
 )
 
 var rules = map[string]string{
-	"C11": "Emit and Unfold x capacities 0-8 x frequencies {1 ns, 1 ms, 1 s, 1 h} on the virtual clock x affine step functions with seed-chosen coefficients x Try failure bitmaps (Emit) x consumer schedules (always ready; idle longer than the capacity then a burst; random) x cancel at every script position; " +
+	"C11": "plus programs at scale in bubbles (whole Seq/stage/ToSeq programs with lengths, capacities, worker counts, numbers of inputs, rates and tick counts swept over 2^k-1, 2^k, 2^k+1 and round numbers; deadlock of the bubble = the program cannot finish); Emit and Unfold x capacities 0-8 x frequencies {1 ns, 1 ms, 1 s, 1 h} on the virtual clock x affine step functions with seed-chosen coefficients x Try failure bitmaps (Emit) x consumer schedules (always ready; idle longer than the capacity then a burst; random) x cancel at every script position; " +
 		"monitors: delivered is a prefix of the successive sequence, f is called on consecutive arguments once each, the k-th Emit call is not before k ticks and calls are >= one tick apart, a value is never available before its tick, an always-ready consumer receives exactly one value per tick at the tick, stop and close after cancel within the bound; " +
 		"distinct by (case, outcome); non-trivial = at least one value delivered and >= 2 moves",
-	"C12": "Join with 0..5 inputs x sequences 0..20 x capacities 0..4 x scripts interleaving sends on the different inputs, closes at every position and receives (all interleavings for tiny shapes incl. no inputs / all empty, then seed-random with bursts and unclosed inputs); " +
+	"C12": "plus programs at scale in bubbles (whole Seq/stage/ToSeq programs with lengths, capacities, worker counts, numbers of inputs, rates and tick counts swept over 2^k-1, 2^k, 2^k+1 and round numbers; deadlock of the bubble = the program cannot finish); Join with 0..5 inputs x sequences 0..20 x capacities 0..4 x scripts interleaving sends on the different inputs, closes at every position and receives (all interleavings for tiny shapes incl. no inputs / all empty, then seed-random with bursts and unclosed inputs); " +
 		"online: output is an order-respecting sub-multiset of the inputs and is not closed while an input is open or undelivered; completion: multiset equality + per-input order, closed, no goroutine left; real-time soak with 5 producers; " +
 		"distinct by (case, outcome); non-trivial = at least one element delivered and >= 2 moves",
-	"C13": "Throttling x ops 1..6 x intervals {1 ms, 1 s} on the virtual clock x capacity 0..4 x arrival patterns (always available; idle for several intervals then a burst; trickle) x consumer paces (always ready; stalled for several intervals then draining; random) x inputs <= 60, clock observed at whole, half and third intervals; " +
+	"C13": "plus programs at scale in bubbles (whole Seq/stage/ToSeq programs with lengths, capacities, worker counts, numbers of inputs, rates and tick counts swept over 2^k-1, 2^k, 2^k+1 and round numbers; deadlock of the bubble = the program cannot finish); Throttling x ops 1..6 x intervals {1 ms, 1 s} on the virtual clock x capacity 0..4 x arrival patterns (always available; idle for several intervals then a burst; trickle) x consumer paces (always ready; stalled for several intervals then draining; random) x inputs <= 60, clock observed at whole, half and third intervals; " +
 		"monitors: delivered == input in order and closes with it, two-pointer sweep over delivery stamps: no half-open window of one interval holds more than 2*ops+1+c deliveries before cancel, and with input always available and consumer always ready element i lies in [floor(i/ops)*interval, +interval]; " +
 		"distinct by (case, outcome); non-trivial = at least one element delivered and >= 2 moves",
-	"C09": "fork.Map/FMap/Filter/Partition/ForEach/Void (Pure and Try modes) x worker counts 1..8 (16, 64 thorough) x inputs 0..60 x per-element virtual processing delays that permute the completion order of in-flight calls x scripts (all interleavings of producer/consumers/cancel on inputs up to the bound with 1-3 workers, then seed-random with bursts and clock advances) x GOMAXPROCS per child; " +
+	"C09": "plus programs at scale in bubbles (whole Seq/stage/ToSeq programs with lengths, capacities, worker counts, numbers of inputs, rates and tick counts swept over 2^k-1, 2^k, 2^k+1 and round numbers; deadlock of the bubble = the program cannot finish); fork.Map/FMap/Filter/Partition/ForEach/Void (Pure and Try modes) x worker counts 1..8 (16, 64 thorough) x inputs 0..60 x per-element virtual processing delays that permute the completion order of in-flight calls x scripts (all interleavings of producer/consumers/cancel on inputs up to the bound with 1-3 workers, then seed-random with bursts and clock advances) x GOMAXPROCS per child; " +
 		"online: delivered is a sub-multiset of the sequential result, nothing closes early; completion: multiset equality, one call per element, all closed, census empty; cancel: census empty within the bound, channels close, no element called twice; real-time soak; " +
 		"distinct by (case, observed outcome incl. output order); non-trivial = at least one element delivered and >= 2 moves",
-	"C10": "fork.Fold over commutative monoids (sum, product of odd numbers, max over negatives, min over positives, bitwise and, or, xor) x worker counts 1..8 (16, 64 thorough) x input lengths 0,1,2,3,par-1,par,par+1,2par+1,17,40 x virtual delays in Combine x producer/consumer scripts; " +
+	"C10": "plus programs at scale in bubbles (whole Seq/stage/ToSeq programs with lengths, capacities, worker counts, numbers of inputs, rates and tick counts swept over 2^k-1, 2^k, 2^k+1 and round numbers; deadlock of the bubble = the program cannot finish); fork.Fold over commutative monoids (sum, product of odd numbers, max over negatives, min over positives, bitwise and, or, xor) x worker counts 1..8 (16, 64 thorough) x input lengths 0,1,2,3,par-1,par,par+1,2par+1,17,40 x virtual delays in Combine x producer/consumer scripts; " +
 		"oracle: plain left fold from the identity; exactly one value, channel closed, no goroutine left; real-time soak; distinct by (case, outcome); non-trivial = at least one value delivered and >= 2 moves",
-	"C08": "pipe.New under scripts of environment moves in synctest bubbles: fill/drain cycles that empty the queue repeatedly, bursts of sends racing cancel, cancel with backlog and slow receiver, sender close with backlog / racing a receive / racing cancel, backlogs up to 10^4, capacities 0-8, " +
+	"C08": "plus programs at scale in bubbles (whole Seq/stage/ToSeq programs with lengths, capacities, worker counts, numbers of inputs, rates and tick counts swept over 2^k-1, 2^k, 2^k+1 and round numbers; deadlock of the bubble = the program cannot finish); pipe.New under scripts of environment moves in synctest bubbles: fill/drain cycles that empty the queue repeatedly, bursts of sends racing cancel, cancel with backlog and slow receiver, sender close with backlog / racing a receive / racing cancel, backlogs up to 10^4, capacities 0-8, " +
 		"seed-random scripts with 1-3 senders; online monitor: no send is pending at a quiescent point before cancel/close, no early close; final: drained sequence is an order-preserving duplicate-free selection of what was sent, every send completed before cancel() (sequence-numbered) is delivered, receive side closes; " +
 		"plus real-time histories of 1-4 senders and 1-3 receivers checked with porcupine against a FIFO-queue model, and a real-time soak (conservation, per-sender order); " +
 		"distinct by (case, observed outcome); non-trivial = at least one value delivered and >= 2 moves",
@@ -36,11 +36,11 @@ var rules = map[string]string{
 		"distinct by (case, observed outcome); non-trivial = at least one value or error delivered",
 	"C06": "all 14 stages (+StdErr-wrapped variants) x capacities x scripts of environment moves: all interleavings of producer program(s) (sends, close), consumer programs (single receives), virtual-clock advances and one cancel for inputs up to the length bound, " +
 		"the same without cancel, then seed-random scripts (inputs <= 25, capacity <= 5, bursts, absent consumers, unclosed inputs); online monitor at every quiescent point: delivered is a prefix of the uncancelled result, nothing closes early; " +
-		"end games: completion (all closed, no library goroutine left, pacer excepted) and cancellation (cancel, inputs closed, nobody receiving: library goroutines gone within the stage's tick bound, then every channel reports closed); " +
+		"end games: completion (all closed, no library goroutine left, pacer excepted) and cancellation (cancel, inputs closed, nobody receiving: library goroutines gone within the stage's tick bound, then every channel reports closed); failure values include errors whose Error method panics and typed-nil pointers; morphism values are shared across cases; " +
 		"distinct by (case, observed outcome); non-trivial = at least one element delivered and >= 2 moves",
 	"C05": "sequential stages (Map, FMap fan-out 0-3, Filter, Take all n, TakeWhile, Partition, Fold non-commutative/non-zero empty, ForEach, Void) x input capacity x scripts of environment moves without cancel: " +
 		"all interleavings of the producer program (sends, close) with the consumer programs for inputs up to the length bound and capacities 0-2, then seed-random scripts (inputs <= 40, capacity <= 8, bursts); " +
-		"end game: send the rest, close, drain; oracle: list function of the issued input, user-function call log, elements removed from the input; " +
+		"end game: send the rest, close, drain; oracle: list function of the issued input, user-function call log, elements removed from the input; plus programs at scale in bubbles (whole Seq/stage/ToSeq programs with lengths, capacities, worker counts, numbers of inputs, rates and tick counts swept over 2^k-1, 2^k, 2^k+1 and round numbers; deadlock of the bubble = the program cannot finish); " +
 		"distinct by (case, observed outcome); non-trivial = at least one element delivered and >= 2 moves",
 }
 
